@@ -644,7 +644,7 @@ def r13i(run):
 
 
 def check(run):
-    run.rules_run += ["R13a", "R13b", "R13c", "R13d", "R13e", "R13f", "R13g", "R13h", "R13i"]
+    run.rules_run += ["R13a", "R13b", "R13c", "R13d", "R13e", "R13f", "R13g", "R13h", "R13i", "R06f"]
     run.explain("Static tables-and-views check of the JSON-Schema generator: keyword, primitive, operator and format "
                 "tables folded from source and compared with the JSON-Schema vocabulary; input/output view members used "
                 "only under the matching self.output polarity; properties / required / dependentRequired keyed alike and "
@@ -661,3 +661,6 @@ def check(run):
     r13g(run, F)
     r13h(run)
     r13i(run)
+    from . import c06
+    _pd, _A, _B = c06.siblings(run)
+    c06.r06f(run, _A, _B)
